@@ -4,9 +4,10 @@ CONSTANTS
   Scripts <- MCScripts
   MaxSess = 3
   FixChk = TRUE
-  FixInput = TRUE
   FixStale = TRUE
   FixLast = TRUE
 INVARIANT PrefixOK
 INVARIANT NoShorten
+INVARIANT LegalStop
+PROPERTY QuitNotLost
 CHECK_DEADLOCK FALSE
